@@ -152,6 +152,9 @@ func (s *SuffrageStateBuilder) buildBatch(
 				return err
 			case !found:
 				return util.ErrNotFound.Errorf("suffrage proof not found, %d", height)
+			case proof.SuffrageHeight() != height:
+				return errors.Errorf(
+					"suffrage proof of wrong height, expected %d, but %d", height, proof.SuffrageHeight())
 			}
 
 			return func() error {
@@ -191,7 +194,7 @@ func (*SuffrageStateBuilder) prove(
 	height := proof.SuffrageHeight()
 
 	index := (height - prevheight - 1).Int64()
-	if index >= int64(len(proofs)) {
+	if index < 0 || index >= int64(len(proofs)) {
 		return errors.Errorf("wrong height")
 	}
 
